@@ -3,6 +3,7 @@
 from __future__ import annotations
 
 import engine_impl as EI
+import verif_rt
 from engine_common import OUTCOMES, after_targets, closure, declared_upstream, ideal_contents, eval_expr
 
 O = {n: i for i, n in enumerate(OUTCOMES)}
@@ -394,7 +395,8 @@ def o_c02(cimp, ctx):
             continue
         for n in neighbours_of(t, tasks):
             cur = files.get(n)
-            if cur is None or rows.get((i, n)) != EI.sha(str(cur)):
+            want = None if cur is None else (EI.sha("".join(str(x) for x in verif_rt.vt_of(cur))) if 200 <= n < 300 else EI.sha(str(cur)))
+            if cur is None or rows.get((i, n)) != want:
                 probs.append((f"task {i} reported unchanged although f{n} differs from (or lacks) its recorded state", ()))
         if rows.get((i, i)) != mods[str(t["module"])][1]:
             probs.append((f"task {i} reported unchanged although its module differs from the recorded state", ()))
